@@ -205,6 +205,20 @@ def check_property(pid, tier='quick', seed=0, replay_only=None):
             if found:
                 rescue.append(u)
                 lines.append('VIOLATION property=%s replay=%s' % (pid, path))
+    # an OPEN known finding whose obligation is discharged on this tree: the code around the finding changed.
+    # Its recorded reason for not being repaired usually is that the obvious repair breaks something else, so the
+    # unit's replay battery is run; a concrete failing input is a violation, otherwise only a note is printed.
+    for k in kf:
+        oid = k['obligation']
+        if oid in obligations and oid not in failed and oid not in lost:
+            u = oid.split('/')[0]
+            if u in results and results[u].status == 'ok' and u not in rescue:
+                from . import replay as RP
+                path, found = RP.make_replay(pid, u + '/*', ['open known finding %s is discharged on this tree: re-examining the unit by replay' % oid], {'text': 'whole replay battery of unit ' + u}, seed)
+                lines.append('NOTE property=%s open known finding %s no longer reproduces on this tree (obligation discharged)' % (pid, oid))
+                if found:
+                    rescue.append(u)
+                    lines.append('VIOLATION property=%s replay=%s' % (pid, path))
     if rescue:
         exit_code = 1
     if violations and undecided:
